@@ -231,6 +231,10 @@ func engineNLPAnalysis(ctx *Ctx) {
 			continue
 		}
 		nw := 1 + r.Intn(14)
+		long := r.Intn(20) == 0
+		if long { // a pasted paragraph: dozens of distinct words, some of them again at the end
+			nw = 25 + r.Intn(30)
+		}
 		parts := make([]string, 0, nw)
 		for k := 0; k < nw; k++ {
 			w := vlib.Word(r, nil)
@@ -243,6 +247,13 @@ func engineNLPAnalysis(ctx *Ctx) {
 				w = []string{"café", "日本語", "😀", "İstanbul", "naïve", "x", "-", "--force", "3.14", "a.b", "tar.gz"}[r.Intn(11)]
 			}
 			parts = append(parts, w)
+		}
+		if long {
+			for k := 0; k < 1+r.Intn(4); k++ {
+				parts = append(parts, parts[len(parts)/2+r.Intn(len(parts)/2)])
+			}
+			parts = append(parts, parts[len(parts)-1-r.Intn(3)])
+			ctx.R.Path("analysis-of-long-texts", 1)
 		}
 		q := strings.Join(parts, []string{" ", " ", "  ", "\t", ", "}[r.Intn(5)])
 		if r.Intn(12) == 0 {
